@@ -209,7 +209,7 @@ def meta_register(chk):
         chk.ok("O3.1", name, "live runner: each payload registered exactly once, in order; before start: all payloads queued under the flavour; unknown flavour while running: raises", node=fi.node, input="runner exists/missing x running/not")
     # ---- the flush
     uq = slots.unqueuer(prog)
-    outs = Interp(prog, uq, unroll=2, decide=lambda it, p, t: True if (t[0] == "call" and t[1][0] == "attr" and t[1][2] == "is_set") else None).run()
+    outs = Interp(prog, uq, unroll=2, decide=lambda it, p, t: True if (t[0] == "call" and t[1][0] == "attr" and t[1][2] == "is_set") else None, inline=lambda f, ct: f.cls is uq.cls and not f.is_async and f.name.startswith("_") and f.name != "register_payload").run()
     chk.count(len(outs))
     ok = True
     for o in outs:
